@@ -93,6 +93,8 @@ fn lexical_alphabet() -> Vec<&'static str> {
         "1", "-1", "+1", "1.5", "12345678901234567890", "'s'", "\"d\"", "'", "\"", "true", "nil", "empty", "x", "a.b", "é", "\t", " ", "\n",
         // more non-ASCII text (3- and 4-byte scalars, a combining mark) and identifiers that differ from keywords by case only
         "日本", "€", "😀", "e\u{301}", "True", "FALSE", "Nil", "X_1",
+        // a backslash is an ordinary character of a string literal (there are no escapes) and of text
+        "\\", "'a\\'",
     ]
 }
 
@@ -298,6 +300,7 @@ pub fn run(ctx: &mut Ctx) {
     let values = [
         "1", "-1", "+1", "1.5", "-0.0", "1.", ".5", "12345678901234567890", "-9223372036854775808", "9223372036854775807", "9223372036854775808", "1e5",
         "'s'", "\"d\"", "'", "\"", "''", "'é'", "'\u{65e5}\u{672c}'", "true", "false", "nil", "null", "empty", "blank", "True", "FALSE", "tRuE", "Nil", "NULL", "Empty",
+        "'\\'", "\"\\\"", "'C:\\t\\'", "'\\n'", "'a\\\\'", "\"\\'\"", "\\",
         "BLANK", "x", "X_1", "a.b", "a[0]", "a['k']", "é", "\u{65e5}\u{672c}", "\u{1f600}", "(1..2)", "-", "", "forloop", "forloop.index", "and", "or", "contains", "in",
     ];
     for slot in slots {
